@@ -1,7 +1,5 @@
 package sim
 
-func checkC13(ix *index, add addFn) {}
-func checkC16(ix *index, add addFn) {}
 func checkC17(ix *index, add addFn) {}
 func checkC18(ix *index, add addFn) {}
 func checkC20(ix *index, add addFn) {}
